@@ -257,6 +257,9 @@ pub enum Op {
     Write(Tgt, Vec<u8>),
     WriteAll(Tgt, Vec<u8>),
     ByRef(Box<Op>),
+    // outside the model's op language: compared between std::io and borsh::io only
+    Flush(Tgt),
+    WriteFmt(Tgt, String),
 }
 
 fn op_of(s: &str) -> Option<Op> {
@@ -264,6 +267,20 @@ fn op_of(s: &str) -> Option<Op> {
     Some(match h {
         "b" => Op::ByRef(Box::new(op_of(t)?)),
         "r" => Op::Read(t.parse().ok()?),
+        "f" => Op::Flush(match t {
+            "s" => Tgt::Slice,
+            "v" => Tgt::Vec,
+            _ => return None,
+        }),
+        "m" => {
+            let (tg, hx) = t.split_once(':')?;
+            let tg = match tg {
+                "s" => Tgt::Slice,
+                "v" => Tgt::Vec,
+                _ => return None,
+            };
+            Op::WriteFmt(tg, String::from_utf8(unhex(hx).ok()?).ok()?)
+        }
         "x" => Op::Exact(t.parse().ok()?),
         "w" | "a" => {
             let (tg, hx) = t.split_once(':')?;
@@ -321,6 +338,19 @@ macro_rules! io_runner {
                     Err(e) => format!("AE:{}", es(&e)),
                 }
             }
+            fn do_flush<W: Write>(w: &mut W) -> String {
+                match w.flush() {
+                    Ok(()) => "F".to_string(),
+                    Err(e) => format!("FE:{}", es(&e)),
+                }
+            }
+            fn do_fmt<W: Write>(w: &mut W, t: &str) -> String {
+                // two arguments: the formatter calls write_str several times
+                match w.write_fmt(format_args!("{}{}", t, t.len())) {
+                    Ok(()) => "M".to_string(),
+                    Err(e) => format!("ME:{}", es(&e)),
+                }
+            }
             // by_ref nesting is resolved statically up to depth 2 (deeper nesting is run at depth 2)
             fn leaf<R: Read, S: Write, V: Write>(op: &Op, r: &mut R, s: &mut S, v: &mut V) -> String {
                 match op {
@@ -330,6 +360,10 @@ macro_rules! io_runner {
                     Op::Write(Tgt::Vec, d) => do_write(v, d),
                     Op::WriteAll(Tgt::Slice, d) => do_write_all(s, d),
                     Op::WriteAll(Tgt::Vec, d) => do_write_all(v, d),
+                    Op::Flush(Tgt::Slice) => do_flush(s),
+                    Op::Flush(Tgt::Vec) => do_flush(v),
+                    Op::WriteFmt(Tgt::Slice, t) => do_fmt(s, t),
+                    Op::WriteFmt(Tgt::Vec, t) => do_fmt(v, t),
                     Op::ByRef(o) => leaf(o, r, s, v),
                 }
             }
